@@ -37,6 +37,30 @@ def work(items):
         for opt in (False, True):
             st, b, _ = wasmlib.compile_wasm(src, {"optimize": opt})
             out.append({"id": f"{ident}/{'O1' if opt else 'O0'}", "cls": cls, "src": src, "st": st, "bytes": list(b) if st == "ok" else None, "why": None if st == "ok" else b})
+    # one Compiler object used for several compilations in a row: every module it emits has to be valid on its own
+    import io
+    from nsl import Compiler
+    from common import quiet
+    shared = Compiler.Compiler()
+    base = abs(hash(items[0][0])) % 1000
+    for k in range(4):
+        # distinct function names per program (an export name used twice by one Compiler object is refused on this code base)
+        n = f"{base}_{k}"
+        src = (f"export function e{n}(int a, int b) -> int\n{{\n  return a * {k + 2} + b;\n}}\n" if k % 2 == 0 else
+               f"export function e{n}(float a, float b) -> float\n{{\n  float c = a * {k}.5;\n  return c + b;\n}}\nexport function d{n}(int a) -> int\n{{\n  return a + {k};\n}}\n")
+        st, b = "refused", "reused compiler"
+        try:
+            with quiet():
+                r = shared.Compile(src, {"wasm": True})
+                if r is not None and r.WasmModule is not None:
+                    buf = io.BytesIO()
+                    r.WasmModule.WriteTo(buf)
+                    st, b = "ok", buf.getvalue()
+        except SystemExit:
+            pass
+        except BaseException as e:  # noqa
+            b = f"raise:{type(e).__name__}"
+        out.append({"id": f"{items[0][0]}/reused-compiler-{k}", "cls": "inside:reused-compiler", "src": src, "st": st, "bytes": list(b) if st == "ok" else None, "why": None if st == "ok" else b})
     return out
 
 
@@ -76,7 +100,7 @@ def run(ctx, args):
         ctx, level="model_checking", evaluations=len(recs), distinct_nontrivial=multi,
         rule=f"{len(wasmgen.structural())} structural programs + {n} seeded programs (2/3 inside the backend's straight-line subset, 1/3 with one construct outside it), each compiled "
              f"with the wasm option at both optimisation levels: {len(emitted)} emitted modules read completely by WasmBinary in TLC (sections, sizes, indices, exports, body type-checking) "
-             "and cross-checked with wasmtime's validator. distinct_nontrivial = emitted modules with more than one function or more than one local.",
+             "and cross-checked with wasmtime's validator; in every batch four programs with distinct function names are also compiled one after the other by ONE Compiler object. distinct_nontrivial = emitted modules with more than one function or more than one local.",
         samples=samples or [{"note": "nothing emitted"}], traces_validated=len(emitted),
         assumptions=["a module is judged only when the compiler reported no error", "sections / opcodes outside WasmBinary's subset are judged by wasmtime alone (counted as 'unmodelled')"],
         extra={"outcome_counts": counts})
